@@ -494,6 +494,18 @@ example : agentsInRadius (erun exE 0 exEOps) [0, 0, 0] 65 = [(3, 300), (4, 4101)
 example : kNearest (fun _ _ => [1, 2, 0]) (erun exE 0 exEOps) [0, 0, 0] 2 = .ok [(3, 300), (4, 4101)] := by
   rfl
 
+/-! any number of dimensions: a 1-D torus and a 5-D bounded space (the theorems above never mention the dimension) -/
+def exE1 : ECfg := { dims := [(-64, 64)], torus := true }
+def exE5 : ECfg := { dims := [(0, 64), (0, 64), (-64, 0), (0, 128), (10, 20)], torus := false }
+example : getPos (erun exE1 1 [.new 1, .set 1 [70], .new 2, .set 2 [-60]]) 1 = .ok [-58] := by rfl
+example : agentsInRadius (erun exE1 1 [.new 1, .set 1 [70], .new 2, .set 2 [-60]]) [60] 10 = [(1, 100), (2, 64)] := by
+  decide
+example : (erun exE5 0 [.new 1, .set 1 [1, 2, -3, 4, 15], .new 2, .set 2 [0, 0, 0, 0, 21]]).active = [1, 2] := by decide
+example : getPos (erun exE5 0 [.new 1, .set 1 [1, 2, -3, 4, 15], .new 2, .set 2 [0, 0, 0, 0, 21]]) 1 = .ok [1, 2, -3, 4, 15] := by rfl
+example : setPos (erun exE5 0 [.new 1, .set 1 [1, 2, -3, 4, 15], .new 2]) 2 [0, 0, 0, 0, 21] = .error .oob := by rfl
+example : calcD2 (erun exE5 0 [.new 1, .set 1 [1, 2, -3, 4, 15], .new 2, .set 2 [0, 0, 0, 0, 20]]) [0, 0, 0, 0, 10] = [55, 100] := by
+  decide
+
 end Examples
 
 end Mesa.Cont
